@@ -1570,6 +1570,13 @@ def run_miri(wd, inputs, quick=False):
     for tag, lst in sorted(by_tag.items()):
         rng = gen.rng_for("miri" + tag)
         n = per.get(tag, 0) if per is not None else 60
+        if tag == "C08:all-zeros" and n:
+            # an EMPTY big integer (20+ zeros: w = 0 truncated) that is then multiplied by the large power (exponent >= 135)
+            # (adjusted exponent within the table range - beyond it the middle stage panics first, finding F4 - and a
+            # residual exponent of at least 135)
+            deep = [r for r in lst if r["fmt"] == "f64" and core.segs_len(r["int"]) >= 20 and r["exp"] >= 153
+                    and r["exp"] + core.segs_len(r["int"]) - 19 <= 308]
+            small += rng.sample(deep, min(len(deep), 3 if quick else 12))
         small += rng.sample(lst, min(len(lst), n))
     core.write_ndjson(inp, [{k: v for k, v in r.items() if k != "tag"} for r in small])
     env = {"MIRIFLAGS": "-Zmiri-tree-borrows -Zmiri-disable-isolation", "CARGO_TARGET_DIR": os.path.join(core.HARNESS, "target", "miri")}
